@@ -76,6 +76,10 @@ func (w *writer) WriteStringLocked(s string) (n int, err error) {
 }
 
 func (w *writer) Flush() (n int, err error) {
+	// Every write to the terminal happens under the mutex: queries from other
+	// goroutines use WriteStringLocked
+	w.mut.Lock()
+	defer w.mut.Unlock()
 	if w.buf.Len() == 0 {
 		// If we didn't write any visual changes, make sure we make any
 		// cursor changes here. Write directly to tty for these as
@@ -108,7 +112,5 @@ func (w *writer) Flush() (n int, err error) {
 	if w.vx.caps.synchronizedUpdate {
 		w.buf.WriteString(decrst(synchronizedUpdate))
 	}
-	w.mut.Lock()
-	defer w.mut.Unlock()
 	return w.w.Write(w.buf.Bytes())
 }
